@@ -479,6 +479,20 @@ def _table(ctx) -> None:
     nm_problems = [p_ for p_ in nm_problems if not (p_ in seen_ or seen_.add(p_))]
     ctx.ob("f.table-delegation", f, "exact-name-first", not nm_problems and n_lookups >= 1,
            f"{n_lookups} accessor-map lookups, each after the exact stored-name search", f.node, message="; ".join(nm_problems[:2]))
+    # value forms: a same-length sequence given as a VECTOR reaches the column's own assignment too (not only list / tuple)
+    vec_form = False
+    for e in cell_stores:
+        if e.value != VALUE:
+            continue
+        for t, pol in flatten_conds(e.conds):
+            if pol and t[0] == "call" and t[1] == ("name", "isinstance") and len(t[2]) == 2 and t[2][0] == VALUE:
+                ks = t[2][1]
+                names = {x[1] for x in ([ks] if ks[0] == "name" else list(ks[1]) if ks[0] == "tuple" else []) if x[0] == "name"}
+                if "Vector" in names:
+                    vec_form = True
+    ctx.ob("f.table-delegation", f, "vector-value", vec_form, "one target column accepts a plain vector of values", f.node,
+           message="Table.__setitem__ hands a value to a single target column only when it is a list or tuple: `t[:, 'a'] = Vector([...])` "
+                   "(the natural way to replace a column's cells) is refused as an unsupported value type")
     # unsupported values raise
     fin = [e for e in it.events if e.kind == "raise" and e.term[0] == "call" and e.term[1] == ("name", "SerifTypeError")
            and any(x == VALUE for t, pol in flatten_conds(e.conds) for x in subterms(t))
@@ -489,6 +503,9 @@ def _table(ctx) -> None:
 
 _V, _T = "vector", "table"
 MUTANTS = [
+    dict(id="column-assignment-refuses-vectors", module="table",
+         old="		if len(target_indices) == 1 and isinstance(value, (Vector, range)):\n			self._underlying[target_indices[0]][row_spec] = value\n			return\n",
+         new="", rules=["f.table-delegation"], desc="the defect repaired by fix 23cf839"),
     dict(id="table-setitem-name-via-map-only", module="table",
          old="			idx = self._stored_name_index(col_spec)\n			if idx is None:\n				column_map = self._current_column_map()\n				idx = column_map.get(col_spec) or column_map.get(col_spec.lower())",
          new="			column_map = self._current_column_map()\n			idx = column_map.get(col_spec) or column_map.get(col_spec.lower())",
